@@ -19,6 +19,11 @@ type c09Case struct {
 	Script []rt.Ev    `json:"script"`
 	Pre    string     `json:"upstream_marker"` // "", "ContextWithValue", "ContextMap"
 	Ctx    string     `json:"ctx_kind"`        // value | cancel | deadline | custom
+	// NoCtxSource: the source is written with the context-less API (destination.Next(v),
+	// destination.Complete()): its notifications arrive with context.Background(), so
+	// nothing attached at subscription can be expected downstream, but what a context
+	// operator BELOW the source attaches must be there on every kind of notification.
+	NoCtxSource bool `json:"contextless_source,omitempty"`
 }
 
 func init() {
@@ -98,7 +103,11 @@ func c09Run(t rt.TB, c c09Case) {
 	id := 4242
 	ctx0, cancel := c09Context(c.Ctx, id)
 	defer cancel()
-	src := rt.NewScript("src", rt.CtorUnsafeCtx, c.Script)
+	ctor := rt.CtorUnsafeCtx
+	if c.NoCtxSource {
+		ctor = rt.CtorUnsafe
+	}
+	src := rt.NewScript("src", ctor, c.Script)
 	var o ro.Observable[int] = src.Observable()
 	switch c.Pre {
 	case "ContextWithValue":
@@ -138,6 +147,9 @@ func c09Run(t rt.TB, c c09Case) {
 				}
 			}
 		}
+		if c.NoCtxSource {
+			break // a context-less subscribe function is not shown its context
+		}
 		if sc == nil || (sc.Value(rt.SubKey) != id && !viaArg) {
 			fail(name, "source-not-subscribed-with-subscription-context", fmt.Sprintf("%s: source subscription #%d got context %v", name, i, sc))
 			return
@@ -175,7 +187,7 @@ func c09Run(t rt.TB, c c09Case) {
 				argCtx = true // documented exception: the default value travels with the explicit context argument
 			}
 		}
-		if r.Ctx.Value(rt.SubKey) != id && !(argCtx && r.Ctx.Value(cat.MidMarker("DefaultIfEmpty.arg")) != nil) {
+		if !c.NoCtxSource && r.Ctx.Value(rt.SubKey) != id && !(argCtx && r.Ctx.Value(cat.MidMarker("DefaultIfEmpty.arg")) != nil) {
 			fail(last.Op, "subscription-marker-lost-on-"+kind, fmt.Sprintf("%s over [%s] (ctx kind %s): callback #%d %s: the value attached at SubscribeWithContext is not visible", name, rt.ScriptString(c.Script), c.Ctx, i, r))
 			return
 		}
@@ -200,14 +212,14 @@ func c09Run(t rt.TB, c c09Case) {
 			fail(last.Op, "nil-context-in-operator-callback", fmt.Sprintf("%s: callback %s received a nil context", name, cs.Pos))
 			return
 		}
-		if cs.Ctx.Value(rt.SubKey) != id && cs.Ctx.Value(cat.MidMarker("DefaultIfEmpty.arg")) == nil {
+		if !c.NoCtxSource && cs.Ctx.Value(rt.SubKey) != id && cs.Ctx.Value(cat.MidMarker("DefaultIfEmpty.arg")) == nil {
 			fail(last.Op, "subscription-marker-lost-in-operator-callback", fmt.Sprintf("%s: callback %s does not see the subscription value", name, cs.Pos))
 			return
 		}
 	}
 	// (5) per-item provenance for value-preserving single rows
 	if len(c.Links) == 1 {
-		if prov := c09Prov[last.Op]; prov != nil {
+		if prov := c09Prov[last.Op]; prov != nil && !c.NoCtxSource {
 			for i, r := range recs {
 				if r.K != 'N' {
 					continue
@@ -275,8 +287,11 @@ func TestC09_Enumerated(t *testing.T) {
 						if !rt.Mine(idx) {
 							continue
 						}
-						for _, pre := range []string{"", "ContextWithValue", "ContextMap"} {
+						for _, pre := range []string{"", "ContextWithValue", "ContextMap", "ContextWithValue/contextless-source"} {
 							c := c09Case{Links: []cat.Link{{Op: row.Name, Variant: v, P: p}}, Script: seqScript(n, end), Pre: pre, Ctx: kinds[idx%len(kinds)]}
+							if pre == "ContextWithValue/contextless-source" {
+								c.Pre, c.NoCtxSource = "ContextWithValue", true
+							}
 							c09Run(t, c)
 							nt := end != 0 || row.CtxRule == "some" || row.Name == "SkipLast" || row.Name == "TakeLast"
 							rt.Case(caseKey("ctx", row.Name, v, p, n, end, pre), nt, "row:"+row.Name, func() any { return c })
